@@ -150,3 +150,40 @@ package harfbuzz
 //@   mode bv
 //@   ensures [same-properties-and-features] result == (plan.props.Direction == other.props.Direction && plan.props.Script == other.props.Script && plan.props.Language == other.props.Language && featuresMatch(plan.userFeatures, other.userFeatures))
 //@   modifies nothing
+//
+// ---------------------------------------------------------------------------------------------
+// Property C01, mechanism "cluster merging on replace/delete keeps clusters monotone / every rune accounted for".
+// mergeClusters(start, end), below the Characters level: every glyph of [start, end) ends with the minimum of the
+// cluster values of that range, and cluster values only decrease (so no rune index smaller than what a glyph
+// already covers is lost). deleteGlyph: the cluster of the deleted glyph is not lost - when another glyph remains
+// (in the out-buffer or after the cursor), one of them ends with a cluster value not above the deleted one.
+//@ func Buffer.mergeClusters C01
+//@   mode int
+//@   requires [range] 0 <= b.idx && b.idx <= start && start <= end && end <= len(b.Info)
+//@   requires [distinct-buffers] rid(b.Info) != rid(b.outInfo) || len(b.outInfo) == 0
+//@   ensures [range-gets-its-minimum] implies(old(b.ClusterLevel) != Characters && end0-start0 >= 2, forall(i, start0, end0, forall(k, start0, end0, b.Info[i].Cluster <= old(b.Info[k].Cluster))))
+//@   ensures [clusters-only-decrease] implies(old(b.ClusterLevel) != Characters, forall(i, 0, len(b.Info), b.Info[i].Cluster <= old(b.Info[i].Cluster)) && forall(i, 0, len(b.outInfo), b.outInfo[i].Cluster <= old(b.outInfo[i].Cluster)))
+//@   ensures [shape-kept] implies(old(b.ClusterLevel) != Characters, sameslice(b.Info, old(b.Info)) && sameslice(b.outInfo, old(b.outInfo)) && b.idx == old(b.idx))
+//@   modifies unspecified
+//@   loop 1 invariant [i-range] start+1 <= i && i <= end && start == start0 && end == end0
+//@   loop 1 invariant [min-so-far] forall(k, start, i, cluster <= b.Info[k].Cluster)
+//@   loop 2 invariant [end-range] end0 <= end && end <= len(b.Info) && start == start0
+//@   loop 2 invariant [extension] forall(k, end0-1, end, b.Info[k].Cluster == b.Info[end0-1].Cluster)
+//@   loop 3 invariant [start-range] b.idx <= start && start <= start0 && end0 <= end && end <= len(b.Info)
+//@   loop 3 invariant [extension] forall(k, start, start0+1, b.Info[k].Cluster == b.Info[start0].Cluster)
+//@   loop 4 invariant [out] 0 <= i && i <= len(b.outInfo) && forall(k, 0, len(b.outInfo), b.outInfo[k].Cluster <= old(b.outInfo[k].Cluster)) && sameslice(b.outInfo, old(b.outInfo)) && startC >= cluster
+//@   loop 4 invariant [info-untouched] forall(k, 0, len(b.Info), b.Info[k].Cluster == old(b.Info[k].Cluster)) && sameslice(b.Info, old(b.Info)) && b.idx == old(b.idx) && b.idx <= start && start <= start0 && end0 <= end && end <= len(b.Info) && forall(k, start0, end0, cluster <= old(b.Info[k].Cluster))
+//@   loop 5 invariant [i-range] start <= i && i <= end && b.idx <= start && start <= start0 && end0 <= end && end <= len(b.Info) && sameslice(b.Info, old(b.Info)) && sameslice(b.outInfo, old(b.outInfo)) && b.idx == old(b.idx)
+//@   loop 5 invariant [assigned] forall(k, start, i, b.Info[k].Cluster == cluster) && forall(k, 0, len(b.Info), implies(k < start || k >= i, b.Info[k].Cluster == old(b.Info[k].Cluster)))
+//@   loop 5 invariant [min] forall(k, start0, end0, cluster <= old(b.Info[k].Cluster)) && forall(k, start, end, cluster <= old(b.Info[k].Cluster))
+//@   loop 5 invariant [out-kept] forall(k, 0, len(b.outInfo), b.outInfo[k].Cluster <= old(b.outInfo[k].Cluster))
+//@ func Buffer.deleteGlyph C01
+//@   mode int
+//@   requires [cursor] 0 <= b.idx && b.idx < len(b.Info)
+//@   requires [distinct-buffers] rid(b.Info) != rid(b.outInfo) || len(b.outInfo) == 0
+//@   ensures [skipped] implies(old(b.ClusterLevel) != Characters, b.idx == old(b.idx)+1 && sameslice(b.Info, old(b.Info)) && sameslice(b.outInfo, old(b.outInfo)))
+//@   ensures [cluster-not-lost] implies(old(b.ClusterLevel) != Characters && (len(b.outInfo) > 0 || old(b.idx)+1 < len(b.Info)),
+//@     | (len(b.outInfo) > 0 && b.outInfo[len(b.outInfo)-1].Cluster <= old(b.Info[b.idx].Cluster)) || (old(b.idx)+1 < len(b.Info) && b.Info[old(b.idx)+1].Cluster <= old(b.Info[b.idx].Cluster)))
+//@   modifies unspecified
+//@   loop 1 invariant [i-range] 0 <= i && i <= L && L == len(b.outInfo) && sameslice(b.outInfo, old(b.outInfo)) && sameslice(b.Info, old(b.Info)) && b.idx == old(b.idx) && cluster == old(b.Info[b.idx].Cluster)
+//@   loop 1 invariant [none-or-last] (i == L && b.outInfo[L-1].Cluster == oldCluster) || (i < L && b.outInfo[L-1].Cluster == cluster)
